@@ -12,6 +12,9 @@ CLAIMED = {
  "C01": ("exploration", "4 C01", "seeded search over framing x chunking x segmentation x caller read schedules with the production response parser running over a simulated socket; oracle = the reference encoder's payload plus the prefix invariant after every read. Sampling gives evidence, not proof; the space (all payloads x all splits x all read sequences) is unbounded so exploration is the honest level."),
  "C02": ("exploration", "4 C02", "seeded fault injection: every run carries exactly one cut (FIN or RST) / read-timeout gap / framing-byte corruption at an offset drawn from targeted classes, followed by 0..4 caller re-reads; oracle = lenient reference decoder on the delivered wire (never-Ok on incomplete framing, prefix invariant at every call, no panic)."),
  "C03": ("exploration", "4 C03", "seeded sampling of (method, status, Content-Length list, Transfer-Encoding list, trailing bytes, peer closes | stays silent) against the RFC 9112 6.3 decision table; the virtual clock turns 'wrongly expects a body from a silent peer' into an exact zero-time check. The decision is a pure function of the head - stated plainly; the simulator contributes delivery schedule, silent peer and clock."),
+ "C04": ("exploration", "4 C04", "seeded generation of response heads (status, reason, version token, field lists around max_headers, obs-text, bare-LF continuations, heads beyond the 8 KiB buffer) delivered under every segmentation class; oracle = the sent field list. The simulator contributes segmentation only; mostly an input property."),
+ "C05": ("exploration", "4 C05", "hostile-stream generators (small-alphabet strings, mutations with numeric blow-ups, endless constructs, gzip bomb) under segmentation, FIN/RST/stall, EINTR and re-reads; oracles: no panic in any simulated thread, termination (kernel deadlock/event cap + real-time hang monitor), bounded transport consumption per construct, allocation monitor with a hard cap whose abort is attributed to the run by the wrapper."),
+ "C06": ("exploration", "4 C06", "flate2-encoded payloads (levels 0..9, hand-written gzip headers) x framing x segmentation x read schedule, plus truncation / trailer-bit-flip faults on the compressed stream; oracle = the encoder's input (prefix + error under damage), Accept-Encoding iff allowed."),
  "C07": ("exploration", "4 C07", "generated caller programs (all body kinds incl. custom Body write sequences) x transport write schedules (short writes, EINTR, slow peer); the bytes the simulated peer received are parsed by an independent strict request parser and compared with the program. Mostly an input/program property - the simulator contributes the write-side fault schedule and the per-connection byte record."),
  "C09": ("exploration", "4 C09", "seeded search over redirect graphs (histories of connections) against a reference interpreter with an independent RFC 3986 resolver; observed on the recorded connection history of the simulated world."),
  "C10": ("exploration", "4 C10", "seeded search over redirect chains x body kinds x forward-proxy worlds in which proxy applicability changes between hops; every hop's bytes pass the C07 oracle, cross-hop equality for 307/308, dialled peer per hop."),
@@ -19,6 +22,7 @@ CLAIMED = {
  "C13": ("exploration", "4 C13", "the central simulation target: production connect_tcp/watchdog/read_timeout()/send() loop over simulated socket, channel, thread and virtual clock; seeded search over stall/drip phases x T/R x caller read histories x thread interleavings at every primitive; zero-margin virtual-time bounds, no-false-timeout, cut-body-never-complete and thread/socket census oracles."),
  "C15": ("exploration", "4 C15", "seeded forms (adversarial data, sizes covering residues of the 8 KiB copy buffer) transferred under short-write/EINTR schedules; the de-chunked body is decoded by an independent multipart decoder. Mostly an input property; said so."),
  "C17": ("exploration", "4 C17", "production happy::connect (threads, channel, recv_timeout, drain loop) over simulated resolver/sockets/clock; seeded search over address lists x accept/refuse/black-hole latencies x deadlines x thread interleavings; oracles on observables: start order and race-interval gaps (both bounds), success iff, winner accepted, time-to-success bound, error provenance, termination."),
+ "C18": ("exploration", "4 C18", "bodies in 38 charsets (valid, truncated, damaged, random) x Content-Type/default-charset precedence x text APIs; the schedule-dependent half - text_reader equals whole-body decoding for every delivery split, chunking and caller read size down to 1 byte - is what the simulator decides; selection itself is a pure function (stated)."),
  "C19": ("exploration", "4 C19", "seeded search over pause points: the peer goes silent forever after a drawn prefix; virtual time makes 'a read that can be satisfied must not wait' an exact check (t_out == t_in) and 'send returns when the blank line arrives' an exact equality."),
 }
 
